@@ -50,6 +50,23 @@ Section PrintOnMain.
     - apply reread_days_in, HQ.
   Qed.
 
+  (** the same for a layout that is a heading layout up to the spaces at its end *)
+  Theorem print_reads_back_core_on c L :
+    forallb safe_tok (rc_date c) = true -> heading_layout (layout_core (rc_date c)) = true ->
+    Forall (day_ok NM c) L -> days_in NM Q L ->
+    read_log NM (rc_date c) (print_output NM c L) = Some (map (reread_day NM) L).
+  Proof.
+    intros Hsafe HL HF HQ. set (c' := with_date c (layout_core (rc_date c))).
+    assert (Ec : rc_date c' = layout_core (rc_date c)) by reflexivity.
+    assert (HL' : heading_layout (rc_date c') = true) by exact HL.
+    assert (HP' : Forall (day_printable NM c') L).
+    { eapply Forall_impl; [|exact HF]. intros d Hd. apply day_ok_printable, (day_ok_core NM c c' Ec), Hd. }
+    apply (read_log_core NM c c' Ec HL' Hsafe L HF).
+    - pose proof (printable_and_in NM Q c' L HP' HQ) as Hboth.
+      eapply Forall_impl; [|exact Hboth]. intros d [Hd Hqd]. apply (day_lines_scannable_on NM Q FSO c' d HL' Hd Hqd).
+    - apply (events_print_output_on NM Q FSO c' L HL' HP' HQ).
+  Qed.
+
   (** *** printing what was read back *)
   Lemma day_lines_reread_on c d : day_in NM Q d -> day_lines NM c (reread_day NM d) = day_lines NM c d.
   Proof.
@@ -110,8 +127,8 @@ Section PrintOnMain.
     split; [|split; [apply print_output_reread_on, HQ|apply reread_days_in, HQ]].
     destruct (read_log_shape _ _ _ _ Hread) as [Hshape Hlay].
     destruct L as [|d0 L0]; [reflexivity|].
-    assert (HL : heading_layout (rc_date c) = true) by (apply Hlay; [discriminate|exact Hsafe]).
-    apply (print_reads_back_on c (d0 :: L0) HL); [|exact HQ].
+    assert (HL : heading_layout (layout_core (rc_date c)) = true) by (apply Hlay; [discriminate|exact Hsafe]).
+    apply (print_reads_back_core_on c (d0 :: L0) Hsafe HL); [|exact HQ].
     rewrite Forall_forall in *. intros d Hd. destruct (Hshape d Hd) as [S1 [S2 [S3 S4]]].
     unfold day_ok. auto 10 using (Hnotes d Hd), (Hlen d Hd).
   Qed.
